@@ -37,7 +37,7 @@ def _dead_job(job, status, message):
 
 def run_job(job):
     """Executed in a worker process: the job itself runs in a forked child under a hard
-    wall-clock limit (2 x its deadline + 600 s), so that a solver call that ignores its
+    wall-clock limit (quick: deadline + 300 s; thorough: 2 x deadline + 600 s), so that a solver call that ignores its
     timeout, or a crash inside the solver library, costs one inconclusive job instead of
     a check that never returns."""
     import pickle
@@ -47,7 +47,7 @@ def run_job(job):
     from . import explore          # noqa: F401
     if os.environ.get("VERIF_NO_ISOLATION"):
         return _run_job(job)
-    limit = 2 * job.get("deadline", 600) + 600
+    limit = job.get("hard_limit") or 2 * job.get("deadline", 600) + 600
     t0 = time.time()
     rfd, wfd = os.pipe()
     pid = os.fork()
@@ -222,6 +222,10 @@ def main(argv=None):
             # quick tier: the slowest job takes under a minute on the unchanged tree; a changed
             # tree that makes the encoding hard must still get an answer in bounded time
             j["deadline"] = min(j.get("deadline", 600), 600)
+            # the deadline is looked at before every solver query (time-out 120 s): a job that is
+            # still running 300 s after it is stuck outside the solver (e.g. a loop that a change
+            # made endless) and is killed
+            j["hard_limit"] = j["deadline"] + 300
     # big jobs first; the seed only perturbs the order
     jobs.sort(key=lambda j: (-j.get("weight", 1), hashlib.md5((j["name"] + str(seed)).encode()).hexdigest()))
     t0 = time.time()
